@@ -486,6 +486,11 @@ def run(ctx):
     from harness.gen.exprs import World
 
     ok_proofs = ctx.check_props(extra=["theories/Corr/Corr_C13.v"])
+    # private directory for the generated case files: a concurrent `./check C13` empties build/cases/C13 when it starts
+    import os
+    import shutil
+    ctx.dir = os.path.join(ctx.dir, "run_%d" % os.getpid())
+    os.makedirs(ctx.dir, exist_ok=True)
     rng = ctx.rng
     n_good = 270 if ctx.quick else 2400
     n_bad = 70 if ctx.quick else 480
@@ -800,6 +805,8 @@ def run(ctx):
                  ["c13", "coq-missed"], {"cases": missed[:3]}, True)
     if not ok_proofs:
         ctx.proof_broken()
+    if not ctx.failures:
+        shutil.rmtree(ctx.dir, ignore_errors=True)
     ctx.finish({
         "evaluations": len(cases),
         "distinct_nontrivial": len(distinct),
